@@ -34,7 +34,7 @@ ASSUMPTIONS = ["public paths of each object (definition, re-export through __all
                "parameter-level compatibility is C10's subject; here only 'append an optional keyword parameter' is used"]
 MANIFEST = {
     "category": "model_checking",
-    "text": "Explicit-state BFS over edit scripts (length <= 2 quick, <= 3 thorough) drawn from a catalogue of 18 compatible and 26 incompatible edits on four base packages (plain, unresolvable re-export, cyclic re-export, a cycle of public modules; each with a module that exports nothing); every reached source tree is loaded and diffed against its base with the real find_breaking_changes, judged against a compatibility table with public-path sets; single-edit states are also checked through a real git repository and check(). The base package has a lazy-import module (underscore names listed in __all__, names imported under TYPE_CHECKING only and listed in __all__) with six edits on it.",
+    "text": "Explicit-state BFS over edit scripts (length <= 2 quick, <= 3 thorough) drawn from a catalogue of 18 compatible and 26 incompatible edits on four base packages (plain, unresolvable re-export, cyclic re-export, a cycle of public modules; each with a module that exports nothing); every reached source tree is loaded and diffed against its base with the real find_breaking_changes, judged against a compatibility table with public-path sets; single-edit states are also checked through a real git repository and check(). The base package has a lazy-import module (underscore names listed in __all__, names imported under TYPE_CHECKING only and listed in __all__) with six edits on it. __all__ is also assembled over three modules (pkg.api <- pkg._base <- pkg._core).",
     "note": "The compatibility table and public-path sets are hand-written for the base packages; complete for scripts up to the stated length.",
     "technique": "explicit-state model checking over edit scripts (two-version histories) on the real loader and diff, with a compatibility-table oracle",
 }
